@@ -396,3 +396,98 @@ pub fn replay(args: &[String]) {
 	}
 	out.summary(json!({"programs": progs.len(), "subjects": ALL_SUBJECTS.len(), "runs": runs, "typed_runs": typed_runs}));
 }
+
+
+/// `yv doc-record <seed> <out.ndjson>` — documents that were never produced by Serialize: the snapshot of every method,
+/// with one array made shorter / longer or one length-like integer changed, is offered to Deserialize; whatever is accepted
+/// is then driven for a few steps.  The transcript (err / outputs / caught panics) is compared between builds (C19, C20):
+/// a build with unchecked indexing must not read out of bounds where the default build returns normally.
+pub fn doc_record(args: &[String]) {
+	let seed: u64 = arg(args, 0, "seed");
+	let mut tw = TraceWriter::create(&args[1]);
+	// YV_DOC_REF=<transcript of the default build>: documents on which the default build panics are outside the property's
+	// antecedent ("calls on which the default build does not panic"): their events are copied, not executed
+	let reference: std::collections::HashMap<String, Value> = std::env::var("YV_DOC_REF").ok().map(|f| {
+		read_lines(&f).into_iter().filter(|e| e.to_string().contains("panic"))
+			.map(|e| (format!("{}|{}", e["subject"].as_str().unwrap_or(""), e["mutation"].as_str().unwrap_or("")), e)).collect()
+	}).unwrap_or_default();
+	for (si, (subject, p)) in ALL_SUBJECTS.iter().enumerate() {
+		let params = if *subject == "Conv" { json!([bits(1.0), bits(2.5), bits(0.5)]) } else { json!(p) };
+		let kind = input_kind(subject);
+		let mut g = Gen::new(seed * 131 + si as u64, *subject == "RateOfChange" || kind == 'c');
+		let xs: Vec<In> = (0..9).map(|_| g.input(kind)).collect();
+		let Ok(Ok(mut m)) = build(subject, &params, &xs[0]) else { continue };
+		for x in &xs[..5] {
+			let _ = catch(|| m.next(x));
+		}
+		let Ok(doc) = serde_json::from_str::<Value>(&m.snapshot()) else { continue };
+		// mutations of one array / one small integer, anywhere in the document
+		let mut paths: Vec<Vec<String>> = Vec::new();
+		fn walk(v: &Value, path: &mut Vec<String>, acc: &mut Vec<Vec<String>>) {
+			match v {
+				Value::Array(a) => {
+					acc.push(path.clone());
+					for (i, e) in a.iter().enumerate().take(3) {
+						path.push(i.to_string());
+						walk(e, path, acc);
+						path.pop();
+					}
+				}
+				Value::Object(o) => {
+					for (k, e) in o {
+						path.push(k.clone());
+						walk(e, path, acc);
+						path.pop();
+					}
+				}
+				Value::Number(n) if n.is_u64() => acc.push(path.clone()),
+				_ => {}
+			}
+		}
+		walk(&doc, &mut Vec::new(), &mut paths);
+		for path in paths {
+			for variant in 0..3 {
+				let mut d = doc.clone();
+				{
+					let mut cur = &mut d;
+					for k in &path {
+						cur = if cur.is_array() { &mut cur[k.parse::<usize>().unwrap()] } else { &mut cur[k.as_str()] };
+					}
+					match cur {
+						Value::Array(a) => match variant {
+							0 => {
+								a.pop();
+							}
+							1 => {
+								if let Some(l) = a.last().cloned() {
+									a.push(l);
+								}
+							}
+							_ => a.clear(),
+						},
+						Value::Number(n) => {
+							let v = n.as_u64().unwrap();
+							*cur = json!(match variant { 0 => v + 1, 1 => v.saturating_sub(1), _ => v + 7 });
+						}
+						_ => {}
+					}
+				}
+				let what = format!("{}:{}", path.join("."), variant);
+				if let Some(e) = reference.get(&format!("{subject}|{what}")) {
+					tw.ev(e.clone());
+					continue;
+				}
+				match restore(subject, &d.to_string()) {
+					Ok(Ok(mut r)) => {
+						let ys: Vec<Value> = xs[5..].iter().map(|x| match catch(|| r.next(x)) { Ok(y) => y.bits(), Err(_) => json!("panic") }).collect();
+						tw.ev(json!({"ev":"doc","subject":subject,"mutation":what,"res":"ok","ys":ys}));
+					}
+					Ok(Err(_)) => tw.ev(json!({"ev":"doc","subject":subject,"mutation":what,"res":"err"})),
+					Err(_) => tw.ev(json!({"ev":"doc","subject":subject,"mutation":what,"res":"panic"})),
+				}
+			}
+		}
+	}
+	let n = tw.finish();
+	println!("{}", json!({"kind":"summary","events":n}));
+}
